@@ -65,9 +65,11 @@ def Leaf.WT (cj : K → K) (I : K) : Leaf K → Prop
   | .multiply d r v => r = d ∧ mem cj d v
   | .multField S F v => F = fieldSpace S.real ∧ mem cj S v ∧ realW cj S
   | .inner S F v => F = fieldSpace S.real ∧ mem cj S v ∧ realW cj S
-  | .realPart S R => Leaf.Assumed cj I (.realPart S R)
-  | .imagPart S R => Leaf.Assumed cj I (.imagPart S R)
-  | .cembed S C s => Leaf.Assumed cj I (.cembed S C s)
+  | .realPart S R => R = { S with real := true } ∧ realW cj S ∧ (2 : K) ≠ 0
+  | .imagPart S R => R = { S with real := true } ∧ realW cj S ∧ (2 : K) ≠ 0 ∧
+      (S.real = false → CxOK cj I)
+  | .cembed S C s => C = { S with real := false } ∧
+      (S.real = true → realW cj S ∧ (2 : K) ≠ 0 ∧ CxOK cj I)
   | .matrix d r M => d.m = 1 ∧ r.m = 1 ∧ (∀ i, d.W 0 i ≠ 0) ∧ realW cj d ∧ realW cj r ∧
       d.real = r.real ∧ (d.real = true → ∀ i k, cj (M i k) = M i k)
   | .pwInner V X G w v => X.m = 1 ∧ (∀ j i, V.W j i = v j * X.W 0 i) ∧
@@ -223,5 +225,59 @@ theorem dot_embed_right (S : Space K) (r : Nat) (hr : r < S.m) (z : El K) (u : N
     · simp [h]
   rw [sum_congr rfl this, sum_add_distrib, sum_ite_eq' (range S.m) r]
   simp [hr]
+
+/-! ### real and imaginary parts -/
+
+theorem cj_reK (hcj : ∀ a, cj (cj a) = a) (a : K) : cj (reK cj a) = reK cj a := by
+  simp only [reK, map_div₀, map_add, hcj, map_ofNat, add_comm]
+
+theorem reK_of_real {a : K} (h : cj a = a) (h2 : (2 : K) ≠ 0) : reK cj a = a := by
+  simp only [reK, h]; field_simp; ring
+
+theorem imK_of_real (I : K) {a : K} (h : cj a = a) : imK cj I a = 0 := by
+  simp [imK, h]
+
+theorem cj_imK (hcj : ∀ a, cj (cj a) = a) {I : K} (hI : cj I = -I) (a : K) :
+    cj (imK cj I a) = imK cj I a := by
+  simp only [imK, map_div₀, map_mul, map_sub, hcj, hI, map_ofNat]; ring
+
+/-- `φ (Re a) = φ a` for every additive, conjugation-invariant `φ`. -/
+theorem phi_re (φ : K →+ K) (hφ : ∀ a, φ (cj a) = φ a) (h2 : (2 : K) ≠ 0) (a : K) :
+    φ ((a + cj a) / 2) = φ a := by
+  have e : (a + cj a) / 2 = a / 2 + cj (a / 2) := by
+    rw [map_div₀, map_ofNat]; ring
+  rw [e, map_add, hφ, ← map_add]
+  congr 1; field_simp; ring
+
+/-- Core of ComplexEmbedding on a real space: `x ↦ (p + i q) x` (`p = Re s`, `q = Im s`) and
+`g y = p·Re y + q·Im y` satisfy the real-part contract. -/
+theorem cembed_pair (hcj : ∀ a, cj (cj a) = a) (I : K) (S : Space K) (s : K)
+    (hr : S.real = true) (hW : realW cj S) (h2 : (2 : K) ≠ 0) (hcx : CxOK cj I)
+    (re : Prop) (hre : re) (g : El K → El K)
+    (hg : ∀ y, g y = fun j i => reK cj s * reK cj (y j i) + imK cj I s * imK cj I (y j i)) :
+    Pair cj re S { S with real := false }
+      (fun x j i => reK cj s * x j i + I * (imK cj I s * x j i)) g := by
+  have cp := cj_reK cj hcj s
+  have cq := cj_imK cj hcj hcx.cjI s
+  refine ⟨fun x _ h => by simp at h, ?_, ?_⟩
+  · intro y _ _ j i
+    rw [hg]
+    simp only [map_add, map_mul, cp, cq, cj_reK cj hcj, cj_imK cj hcj hcx.cjI]
+  · intro φ hφ x y hx _
+    have hxr : ∀ j i, cj (x j i) = x j i := hx hr
+    have e1 : dot cj { S with real := false }
+        (fun j i => reK cj s * x j i + I * (imK cj I s * x j i)) y =
+        (reK cj s + I * imK cj I s) * dot cj S x y := by
+      simp only [dot_eq, mul_sum]
+      exact sum_congr rfl fun j _ => sum_congr rfl fun i _ => by ring
+    have e2 : dot cj S x (g y) =
+        ((reK cj s + I * imK cj I s) * dot cj S x y +
+          cj ((reK cj s + I * imK cj I s) * dot cj S x y)) / 2 := by
+      rw [hg]
+      simp only [dot_eq, map_sum, map_mul, map_add, hcj, hW _ _, hxr _ _, hcx.cjI, cp, cq,
+        cj_reK cj hcj, cj_imK cj hcj hcx.cjI, mul_sum, ← sum_add_distrib, sum_div]
+      refine sum_congr rfl fun j _ => sum_congr rfl fun i _ => ?_
+      simp only [reK, imK]; ring
+    rw [e1, e2, phi_re cj φ (hφ hre) h2]
 
 end OdlModel.Adjoint
